@@ -17,6 +17,7 @@ func init() {
 			c.run("C03-R2", "GUARD-DOM: cursor advance = bytes consumed, on every arm", c03R2)
 			c.run("C03-R3", "ORDER: no waiting while data is there", c03R3)
 			c.run("C03-R4", "FRESH: producers never rewrite a queued buffer", c03R4)
+			c.run("C03-R5", "MUST-PASS: the input pump queues exactly what each read returned and ends exactly on a read error", c03R5)
 		})
 }
 
@@ -465,4 +466,40 @@ func readLineContinuation(c *Ctx) {
 			"the wrapped-line decision is not taken on the accumulated line's last byte: a CR|LF split across two reads ends the line early (or a strict line is continued)")
 	}
 	c.check(nBack >= 1, "readLine/has-wrapped-line-continuation", c.pos(rl.Pos()), "junk-tolerant mode can continue after a newline", "the reader never continues after a newline: wrapped lines are cut")
+}
+
+// c03R5: the server's input pump (stdin / tunnel -> stream buffer) delivers exactly what each read returned,
+// skips only empty reads, and ends exactly on a read error.
+func c03R5(c *Ctx) {
+	f := c.fn("wrapTransferInput$1")
+	var reads []*ssa.Call
+	for _, ci := range callsIn(f, idIs("invoke io.Reader.Read")) {
+		reads = append(reads, ci.(*ssa.Call))
+	}
+	adds := callsIn(f, idIs(tT+"addReceivedData"))
+	if len(reads) != 1 || len(adds) != 1 {
+		c.lost("the one Read and the one addReceivedData of the input pump")
+	}
+	rd := reads[0]
+	n, rerr := extractOf(rd, 0), extractOf(rd, 1)
+	add := adds[0]
+	sl, isS := add.Common().Args[1].(*ssa.Slice)
+	lowOK := isS && (sl.Low == nil || isConstIntV(0)(sl.Low))
+	exact := isS && lowOK && sl.High != nil && sameValue(sl.High, n) && sameValue(sl.X, rd.Call.Args[0]) && domI(rd, add.(ssa.Instruction))
+	c.check(exact, "wrapTransferInput/delivers-buf[:n]", c.ipos(add), "the chunk queued is exactly buffer[0:n] of the read just done", "the chunk queued is not exactly the bytes the read returned")
+	edgeHas := func(op token.Token, v ssa.Value, rhs func(ssa.Value) bool) func(from, to *ssa.BasicBlock) bool {
+		return func(from, to *ssa.BasicBlock) bool {
+			return factCmp(edgeFactsTo(from, to), op, isValue(v), rhs)
+		}
+	}
+	isAdd := func(in ssa.Instruction) bool { return in == add.(ssa.Instruction) }
+	next := func(in ssa.Instruction) bool { return in == ssa.Instruction(rd) || isReturn(in) }
+	hit, path := reachFromE(rd.Block(), instrIndex(rd)+1, next, isAdd, func(from, to *ssa.BasicBlock) bool {
+		return edgeHas(token.LEQ, n, isConstIntV(0))(from, to) || edgeHas(token.EQL, n, isConstIntV(0))(from, to) || edgeHas(token.LSS, n, isConstIntV(1))(from, to)
+	})
+	c.check(hit == nil, "wrapTransferInput/no-read-dropped", c.ipos(rd), "a read that returned bytes (n > 0) always reaches the queueing call before the next read or the exit", "bytes returned by a read can be skipped (the next read or the exit is reachable with n > 0 without queueing them)", c.pathStr(path)...)
+	hit, path = reachFromE(rd.Block(), instrIndex(rd)+1, isReturn, nil, edgeHas(token.NEQ, rerr, isNilConst))
+	c.check(hit == nil, "wrapTransferInput/ends-only-on-error", c.ipos(rd), "the pump ends only on the edge where the read reported an error", "the pump can end although the read succeeded: the transfer stops receiving input", c.pathStr(path)...)
+	hit, path = reachFromE(rd.Block(), instrIndex(rd)+1, func(in ssa.Instruction) bool { return in == ssa.Instruction(rd) }, nil, edgeHas(token.EQL, rerr, isNilConst))
+	c.check(hit == nil, "wrapTransferInput/error-ends-pump", c.ipos(rd), "after a read error the pump does not read again", "the pump keeps reading after a read error (spins on a closed input)", c.pathStr(path)...)
 }
